@@ -375,6 +375,12 @@ inline bool do_decode_resize(std::vector<T>& v, const uint8_t*& pos, const uint8
     {
         return false;
     }
+    /// every element occupies at least one byte (its encoded size, when fixed) of the remaining input
+    const size_t min_elem_size = (int(codec_traits<T>::size) > 0) ? size_t(codec_traits<T>::size) : 1;
+    if (size_t(n) > size_t(end - pos) / min_elem_size)
+    {
+        return false;
+    }
     v.resize(n);
     return true;
 }
